@@ -197,3 +197,40 @@ type L1 struct {
 	M     map[string]any
 	X     any
 }
+
+// Multi-level pointer embedding: P2 embeds *P3, embedded itself as *P2 (two pointers to a promoted member);
+// Q2 embeds Q3 by value which embeds *P3 (pointer -> value -> pointer); R1 embeds *P2 and is embedded by value.
+type P3 struct {
+	Pa int
+	Pb string
+}
+
+// P2 embeds a pointer to P3.
+type P2 struct {
+	*P3
+	Ma int
+}
+
+// Q3 embeds a pointer to P3 behind a leading member.
+type Q3 struct {
+	Qb int
+	*P3
+}
+
+// Q2 embeds Q3 by value.
+type Q2 struct {
+	Q3
+	Qa int
+}
+
+// R1 embeds a pointer to P2.
+type R1 struct {
+	Ra int
+	*P2
+}
+
+// BA4 is a named byte array, BS a named byte slice.
+type BA4 [4]byte
+
+// BS is a named byte slice.
+type BS []byte
